@@ -43,6 +43,7 @@ type Node struct {
 	L   []*Node          // List, Vec
 	M   map[string]*Node // Map: raw key -> value
 	Mem map[string]bool  // Set: raw members
+	X   any              // Opaque payload (reference interpreter closures, original Go object); ignored by Equal
 }
 
 const Marker = "ʞ"
@@ -137,7 +138,7 @@ func FromGo(v types.MalType) *Node {
 	case types.Func:
 		return Op("builtin")
 	case error:
-		return Op("error:" + t.Error())
+		return &Node{K: Opaque, S: "error", X: t}
 	default:
 		rt := reflect.TypeOf(v)
 		return Op(rt.String())
@@ -192,6 +193,42 @@ func Equal(a, b *Node) bool { return eq(a, b, false) }
 
 // LispEqual is the documented `=`: like Equal but a list and a vector with pairwise equal elements are equal.
 func LispEqual(a, b *Node) bool { return eq(a, b, true) }
+
+// EqualWild compares a real value with a model value: a model node Opaque("error") (an error object
+// produced by a builtin, whose concrete representation the statements leave open) matches a real error
+// object or message string.
+func EqualWild(real, model *Node) bool {
+	if model.K == Opaque && model.S == "error" {
+		return (real.K == Opaque && real.S == "error") || real.K == Str
+	}
+	if real.K != model.K {
+		return false
+	}
+	switch real.K {
+	case List, Vec:
+		if len(real.L) != len(model.L) {
+			return false
+		}
+		for i := range real.L {
+			if !EqualWild(real.L[i], model.L[i]) {
+				return false
+			}
+		}
+		return true
+	case Map:
+		if len(real.M) != len(model.M) {
+			return false
+		}
+		for k, v := range real.M {
+			w, ok := model.M[k]
+			if !ok || !EqualWild(v, w) {
+				return false
+			}
+		}
+		return true
+	}
+	return eq(real, model, false)
+}
 
 func eq(a, b *Node, seqInter bool) bool {
 	if a.K != b.K {
